@@ -262,7 +262,50 @@ theorem finishCycle_jobs (s : MState) : (finishCycle s).jobs = s.jobs := by
   · rfl
   · split
     · rfl
-    · split <;> rfl
+    · split
+      · rfl
+      · unfold startMonitorIf; split <;> rfl
+
+theorem recordKnown_parked {s : MState} (h : Parked s) : Parked (recordKnown s) := by
+  unfold recordKnown; split
+  · exact parked_of_jobs h rfl
+  · exact h
+
+theorem monPass_parked {s : MState} (h : Parked s) (m : Mon) (c gen : Nat) : Parked (monPass s m c gen) := by
+  unfold monPass
+  have hd : Parked (detect s).1 := parked_of_jobs h rfl
+  split
+  · exact parked_of_jobs (runCycleUnits_parked hd c gen) rfl
+  · exact hd
+
+theorem monTick_parked {s : MState} (h : Parked s) (m : Mon) : Parked (monTick s m) := by
+  unfold monTick
+  split
+  · apply monPass_parked
+    exact parked_of_jobs h rfl
+  · exact parked_of_jobs h rfl
+
+theorem monKick_parked {s : MState} (h : Parked s) : Parked (monKick s) := by
+  unfold monKick
+  split
+  · exact h
+  · split
+    · exact h
+    · split
+      · apply monTick_parked
+        exact parked_of_jobs h rfl
+      · exact parked_of_jobs h rfl
+
+theorem tickDue_parked {s : MState} (h : Parked s) : Parked (tickDue s) := by
+  unfold tickDue
+  split
+  · exact h
+  · split
+    · exact h
+    · split
+      · exact parked_of_jobs h rfl
+      · apply monTick_parked
+        exact parked_of_jobs h rfl
 
 /-- `resume` removes exactly the units it answers: each of them returns -/
 theorem resume_jobs {s : MState} (h : Parked s) (pick : Job → Option (Ans × Nat)) :
@@ -299,10 +342,38 @@ theorem resume_parked {s : MState} (h : Parked s) (pick : Job → Option (Ans ×
 
 theorem expire_parked {s : MState} (h : Parked s) : Parked (expire s) := by
   unfold expire
-  exact parked_of_jobs (resume_parked h _) (finishCycle_jobs _)
+  exact monKick_parked (parked_of_jobs (resume_parked h _) (finishCycle_jobs _))
+
+theorem atTime_parked {s : MState} (h : Parked s) (t : Nat) : Parked (atTime s t) :=
+  tickDue_parked (expire_parked (parked_of_jobs h rfl))
+
+theorem advLoop_parked : ∀ (fuel : Nat) {s : MState}, Parked s → ∀ target, Parked (advLoop fuel s target) := by
+  intro fuel
+  induction fuel with
+  | zero => intro s h _; exact h
+  | succ n ih =>
+    intro s h target
+    simp only [advLoop]
+    split
+    · exact h
+    · exact ih (atTime_parked h _) target
+
+theorem advanceTo_parked {s : MState} (h : Parked s) (target : Nat) : Parked (advanceTo s target) :=
+  atTime_parked (advLoop_parked _ h target) target
+
+theorem advTo_parked {s : MState} (h : Parked s) (t : Nat) : Parked (advTo s t) := by
+  unfold advTo; split
+  · exact advanceTo_parked h _
+  · exact expire_parked (parked_of_jobs h rfl)
+
+theorem applyFailed_parked {s : MState} (h : Parked s) (n : Nat) : Parked (applyFailed s n) := by
+  unfold applyFailed; split
+  · exact parked_of_jobs h rfl
+  · exact h
 
 theorem openGate_parked {s : MState} (h : Parked s) : Parked (openGate s) := by
   unfold openGate
+  apply monKick_parked
   refine parked_of_jobs ?_ (finishCycle_jobs _)
   refine foldl_parked _ ?_ _ _ ?_
   · intro s c hs; exact runHost_parked hs _ _
@@ -310,17 +381,18 @@ theorem openGate_parked {s : MState} (h : Parked s) : Parked (openGate s) := by
 
 theorem dropCands_jobs (s : MState) : (dropCands s).jobs = s.jobs := rfl
 
+theorem closeWait_parked {s : MState} (h : Parked s) (dl : Nat) : Parked (closeWait s dl) := by
+  unfold closeWait; split
+  · exact parked_of_jobs h rfl
+  · exact h
+
 theorem closeAgent_parked {s : MState} (h : Parked s) : Parked (closeAgent s) := by
   unfold closeAgent
   refine parked_of_jobs ?_ (dropCands_jobs _)
   apply resume_parked
-  have h1 := openGate_parked h
-  have h2 : Parked { openGate s with cyc := (Cycle.step false (openGate s).cyc .close).1 } := parked_of_jobs h1 rfl
-  have h3 := resume_parked h2 (fun j => if isStunJob j &&
-      (((openGate s).cyc.cycles[j.cyc]?).map (fun c => !c.cancelled)).getD false then some (.fail, 0) else none)
-  split
-  · exact parked_of_jobs h3 rfl
-  · exact h3
+  apply closeWait_parked
+  apply resume_parked
+  exact parked_of_jobs (openGate_parked h) rfl
 
 theorem acceptGather_parked {s : MState} (h : Parked s) : Parked (acceptGather s).1 := by
   simp only [acceptGather]
@@ -335,7 +407,7 @@ theorem startCycle_parked {s : MState} (h : Parked s) (cg : Option (Nat × Nat))
   · exact h
   · split
     · exact parked_of_jobs h rfl
-    · refine parked_of_jobs (runCycleUnits_parked ?_ _ _) (finishCycle_jobs _)
+    · refine parked_of_jobs (runCycleUnits_parked (recordKnown_parked ?_) _ _) (finishCycle_jobs _)
       exact parked_of_jobs h rfl
 
 theorem restartOp_parked {s : MState} (h : Parked s) : Parked (restartOp s).1 := by
@@ -356,10 +428,12 @@ theorem step_parked {s : MState} (h : Parked s) (op : Op) : Parked (step s op).1
   | gather =>
     simp only [step]
     split
-    · refine parked_of_jobs (runCycleUnits_parked ?_ _ _) (finishCycle_jobs _)
+    · refine parked_of_jobs (runCycleUnits_parked (recordKnown_parked ?_) _ _) (finishCycle_jobs _)
       exact parked_of_jobs h rfl
     · exact h
     · exact h
+  | ifaces t => exact parked_of_jobs h rfl
+  | hold => exact parked_of_jobs h rfl
   | restart =>
     simp only [step]
     split
@@ -371,26 +445,19 @@ theorem step_parked {s : MState} (h : Parked s) (op : Op) : Parked (step s op).1
     simp only [step]
     split
     · exact h
-    · unfold applyFailed
-      split
-      · refine parked_of_jobs (expire_parked ?_) rfl
-        exact parked_of_jobs h rfl
-      · refine expire_parked ?_
-        exact parked_of_jobs h rfl
+    · exact applyFailed_parked (advTo_parked h _) n
   | release => exact openGate_parked h
-  | adv ms =>
-    refine expire_parked ?_
-    exact parked_of_jobs h rfl
+  | adv ms => exact advTo_parked h _
   | stunreply k m =>
     simp only [step]
     split
     · exact h
-    · exact parked_of_jobs (resume_parked h _) (finishCycle_jobs _)
+    · exact monKick_parked (parked_of_jobs (resume_parked h _) (finishCycle_jobs _))
   | turnreply k ok m =>
     simp only [step]
     split
     · exact h
-    · exact parked_of_jobs (resume_parked h _) (finishCycle_jobs _)
+    · exact monKick_parked (parked_of_jobs (resume_parked h _) (finishCycle_jobs _))
 
 theorem runOps_parked : ∀ (ops : List Op) {s : MState}, Parked s → Parked (runOps s ops) := by
   intro ops
